@@ -99,8 +99,9 @@ def _pin_to_span(ctx, p, U, inner, n, j, where):
 # ------------------------------------------------------------------------------------------------
 @scenario('C03', fns=['helpers.basis_function_one', 'helpers.basis_function', 'helpers.basis_function_ders_one',
                       'helpers.find_span_linear', 'helpers.find_span_binsearch', 'knotvector.check'],
-          quick=[dict(p=p, e0=e0, e1=e1, ni=ni) for p, ni in ((1, 1), (2, 1), (3, 0), (2, 2)) for e0, e1 in ((1, 0), (0, 1), (1, 1), (2, 1))])
-def basis_one_repeated_end_knots(ctx, p, e0, e1, ni):
+          quick=[dict(p=p, e0=e0, e1=e1, ni=ni) for p, ni in ((1, 1), (2, 1), (3, 0), (2, 2)) for e0, e1 in ((1, 0), (0, 1), (1, 1), (2, 1))]
+                + [dict(p=p, e0=0, e1=0, ni=ni, imult=p + 1) for p, ni in ((1, 1), (2, 1), (2, 2), (3, 1))])
+def basis_one_repeated_end_knots(ctx, p, e0, e1, ni, imult=1):
     """requires: a normalised knot vector whose first knot is repeated p+1+e0 and last knot p+1+e1 times (non-decreasing,
                  accepted by knotvector.check; e > 0 leaves the outermost basis functions with an empty support), ni
                  symbolic interior knots; u at the domain start, the domain end, or anywhere in the domain
@@ -111,7 +112,9 @@ def basis_one_repeated_end_knots(ctx, p, e0, e1, ni):
     chain = [ctx.lit(0)] + inner + [ctx.lit(1)]
     for x, y in zip(chain, chain[1:]):
         ctx.assume(ctx.lt(x, y))
-    U = [ctx.lit(0)] * (p + 1 + e0) + inner + [ctx.lit(1)] * (p + 1 + e1)
+    # imult: every interior knot repeated imult times (imult = p + 1: the shape may jump there, the basis functions that
+    # start at such a knot have the value 1 at it and 0 at the first knot)
+    U = [ctx.lit(0)] * (p + 1 + e0) + [k for k in inner for _ in range(imult)] + [ctx.lit(1)] * (p + 1 + e1)
     n = len(U) - p - 1
     hp = ctx.geomdl('helpers')
     ctx.check_true('knotvector.check_accepts', ctx.geomdl('knotvector').check(p, list(U), n) is True)
